@@ -35,6 +35,8 @@ OBLIGATIONS = [
     # the schedule ON THE RUN: control flow regenerated from the source (GenC11.v) composed with the regenerated rules (GenC05.v)
     "C05_src_shape", "C05_src_run_events", "C05_src_run_log", "C05_src_run_schedule", "C05_src_run_schedule_example",
     "C05_src_log_observed", "C05_src_run_unrolled",
+    # whole-run consequences: the memory-less phase leaves no trace, no overshoot, constants reproduced (+ non-vacuity)
+    "C05_burn_in_leaves_no_trace", "C05_stat_in_hull", "C05_stat_constant", "C05_burn_in_leaves_no_trace_example",
 ]
 
 PERSO_ALGOS = ("mean_posterior", "mode_posterior")     # share AlgorithmWithSamplersMixin with the fit algorithm
